@@ -463,8 +463,9 @@ pub mod pipeline {
 
     fn sol(k: usize) -> Vec<f64> {
         // inside and outside the domain [-1, 2)^2, distinct objective values
-        const G: [[f64; 2]; 8] = [[0.5, -0.25], [1.5, 0.75], [-0.5, 0.125], [0.0, 1.0], [2.5, 0.5], [-1.75, -3.0], [0.25, 0.25], [1.0, -1.0]];
-        G[k % 8].to_vec()
+        // 8 and 9: equal under `==`, different solutions (signed zero)
+        const G: [[f64; 2]; 10] = [[0.5, -0.25], [1.5, 0.75], [-0.5, 0.125], [0.0, 1.0], [2.5, 0.5], [-1.75, -3.0], [0.25, 0.25], [1.0, -1.0], [0.75, 0.0], [0.75, -0.0]];
+        G[k % 10].to_vec()
     }
 
     /// prepared stacks (bottom first); `true` = carries f(solution), `false` = not evaluated
@@ -475,6 +476,7 @@ pub mod pipeline {
             ("top-mixed", vec![vec![(0, true), (1, true), (2, true)], vec![(3, true), (6, false), (7, true)]]),
             ("top-unevaluated", vec![vec![(0, true), (1, true), (2, true)], vec![(3, false), (4, false), (1, false)]]),
             ("top-has-duplicates", vec![vec![(0, true), (1, true), (2, true)], vec![(0, true), (0, false), (2, true)]]),
+            ("top-has-signed-zero-twins", vec![vec![(0, true), (8, true), (9, true)], vec![(8, false), (9, false), (8, true), (9, false)]]),
         ]
     }
 
@@ -483,7 +485,7 @@ pub mod pipeline {
 
     /// runs stages `a`, `b`, then an evaluation step with the `par` evaluator; returns the stale findings
     pub fn run_pipeline(a: usize, b: usize, stack: usize, par: bool) -> Obs {
-        let problem = RealP::new(2, -1.0, 2.0, FKind::Shifted, Instr::new());
+        let problem = RealP::new(2, -1.0, 2.0, FKind::ZeroSign, Instr::new());
         let stgs = stages();
         let pops: Vec<Vec<Individual<RealP>>> = stacks()[stack]
             .1
@@ -562,7 +564,7 @@ pub mod pipeline {
         let thorough = rep.tier == Tier::Thorough;
         let stgs = stages();
         let names: Vec<&'static str> = stgs.iter().map(|s| s.0).collect();
-        rep.alpha(&format!("component pipelines: every ordered pair of {} stages (selections, recombinations with insert_single / insert_both and pc 0.5 / 1, mutations, boundary repairs, replacements, stack utilities, evaluation) on 5 prepared stacks (evaluated, mixed, unevaluated, duplicates), followed by an evaluation step with the Sequential or the Parallel evaluator; generator words of the first 2 (quick) / 3 (thorough) draws from a menu of 4", names.len()));
+        rep.alpha(&format!("component pipelines: every ordered pair of {} stages (selections, recombinations with insert_single / insert_both and pc 0.5 / 1, mutations, boundary repairs, replacements, stack utilities, evaluation) on 6 prepared stacks (evaluated, mixed, unevaluated, duplicates, solutions that differ only in the sign of a zero), followed by an evaluation step with the Sequential or the Parallel evaluator; generator words of the first 2 (quick) / 3 (thorough) draws from a menu of 4", names.len()));
         let depth = if thorough { 3 } else { 2 };
         let seed = rep.seed;
         let mut part = Part::new("components.pipelines");
